@@ -51,14 +51,14 @@ ALL_NAMES = sorted(STEP_OF)
 # ops whose option space is large are drawn more often (axis x keepdims x ddof, ord, subscripts, index kinds, ...)
 _WEIGHT = {"var": 5, "std": 5, "sum": 3, "mean": 3, "prod": 3, "max": 4, "min": 4, "norm": 4, "einsum": 4, "getitem": 3,
            "getitem_adv": 4, "repeat": 3, "matmul": 3, "softmax": 2, "logsoftmax": 2, "cumsum": 2, "cumprod": 2, "roll": 2,
-           "transpose": 2, "reshape": 2, "squeeze": 2, "where": 2, "clip": 2, "concatenate": 2, "stack": 2, "power": 2}
+           "transpose": 2, "reshape": 4, "ravel": 2, "flatten": 2, "squeeze": 2, "where": 2, "clip": 2, "concatenate": 2, "stack": 2, "power": 2}
 WEIGHTED_NAMES = [n for n in ALL_NAMES for _ in range(_WEIGHT.get(n, 1))]
 
 LAYOUTS = [None, None, "F", "F", "T", "neg", "sliced", "bcast", "relaxed", "offset"]
 
 
 def _seed(draw, shape):
-    kind = draw(st.sampled_from(["none", "scalar", "full", "full", "full_F"]))
+    kind = draw(st.sampled_from(["none", "scalar", "full", "full_F", "full_F"] if len(shape) >= 2 else ["none", "scalar", "full", "full"]))
     if kind == "none":
         return None
     if kind == "scalar":
